@@ -424,6 +424,46 @@ theorem dispatch_after_failed_exchanges (r : Router) (failed : List FailedExchan
 example : exRouter.connServe [.observe [0xa1, 0xb2], .discovery [0xa1, 0xb2]] exRouter.z 1 [0xa1, 0xb2] [['a'], ['b']] =
     exRouter.wireServe exRouter.z 1 [['a'], ['b']] := by decide
 
+/-! ## Concurrent writers -/
+
+/-- Every write to the route table outside the constructor updates it IN PLACE (`r.z[k] = v`, `delete(r.z, k)`) — under
+    the write lock by `lock_discipline` — and never installs a table computed from an earlier read (`r.z = …`): a
+    registration or removal is one atomic read-modify-write of the shared table, so concurrent writers cannot lose each
+    other's updates. -/
+theorem route_table_updated_in_place :
+    ∀ a ∈ accesses, a.field = "z" → a.write = true → a.fn ≠ "NewRouter" → a.whole = false ∧ a.lock = .w := by
+  decide
+
+/-- Atomic updates of DIFFERENT patterns commute: whichever order the mutex serialises two writers in, every pattern ends
+    up with the same route (or none) — so after concurrent writers on disjoint patterns have joined the table is the one
+    the harness expects (`harness/c17race: runWriters`). -/
+theorem disjoint_updates_commute (z : List (Str × Route)) (hnd : (z.map (·.1)).Nodup) (a b : Str) (hab : a ≠ b) (x y : Route) (q : Str) :
+    zGet (zSet (zSet z a x) b y) q = zGet (zSet (zSet z b y) a x) q ∧
+    zGet (zErase (zSet z a x) b) q = zGet (zSet (zErase z b) a x) q := by
+  have hnd' : ((zSet z a x).map (·.1)).Nodup := by
+    rw [zSet_keys]
+    by_cases hm : a ∈ z.map (·.1)
+    · simpa [hm] using hnd
+    · simp only [hm, if_false]
+      rw [List.nodup_append]
+      exact ⟨hnd, by simp, by
+        intro u hu v hv
+        simp only [List.mem_singleton] at hv
+        subst hv
+        intro huv; subst huv; exact hm hu⟩
+  refine ⟨?_, ?_⟩
+  · simp only [zGet_zSet]
+    by_cases h1 : b = q <;> by_cases h2 : a = q <;> simp [h1, h2]
+    exact (hab (h2.trans h1.symm)).elim
+  · rw [zGet_zErase _ _ _ hnd', zGet_zSet, zGet_zSet, zGet_zErase _ _ _ hnd]
+    by_cases h1 : b = q <;> by_cases h2 : a = q <;> simp [h1, h2]
+    exact (hab (h2.trans h1.symm)).elim
+
+/-- `Router.Use` appends to the router's own slice; it never adopts the caller's variadic slice, so nothing the caller does
+    with its slice afterwards (appending to it, handing it to another router, overwriting an element) can change this
+    router's chain (regenerated from mux/middleware.go). -/
+theorem use_keeps_own_chain : useAppendsToOwnSlice = true := by decide
+
 /-! ## middleware_order -/
 
 /-- The loop of `ServeCOAP` (from the last registered middleware down to the first) builds
@@ -501,6 +541,9 @@ open CoapVerif.Props.C17
 #print axioms failed_exchanges_clean_up
 #print axioms failed_exchanges_leave_no_token
 #print axioms dispatch_after_failed_exchanges
+#print axioms route_table_updated_in_place
+#print axioms disjoint_updates_commute
+#print axioms use_keeps_own_chain
 #print axioms middleware_order
 #print axioms middleware_trace
 #print axioms lock_discipline
